@@ -13,20 +13,20 @@ PROPERTIES = {}
 # stands on: a defect in a shared helper - the arc converter, the affine algebra, the path rewrites, the boolean glue, the
 # cascade handlers - breaks every property built on it, whichever one a reader files it under.
 DEPENDS = {
-    "C01": ("C09", "C12", "C13", "C05", "C04"),
-    "C02": ("C09", "C11", "C12", "C13"),
+    "C01": ("C09", "C12", "C13", "C05", "C04", "C06", "C19"),
+    "C02": ("C09", "C11", "C12", "C13", "C15"),
     "C03": ("C09", "C11", "C12", "C13"),
     "C04": ("C09", "C11", "C12", "C13"),
     "C05": ("C04",),
-    "C06": ("C11",),
+    "C06": ("C11", "C15"),
     "C07": ("C09", "C12", "C05"),
     "C08": ("C04",),
     "C09": ("C12",),
     "C12": ("C11",),
     "C13": ("C09", "C12"),
     "C14": ("C05",),
-    "C18": ("C09", "C12", "C13", "C05"),
-    "C19": ("C09", "C11", "C12", "C13"),
+    "C18": ("C09", "C12", "C13", "C05", "C15"),
+    "C19": ("C09", "C11", "C12", "C13", "C05", "C15"),
     "C20": ("C09", "C11", "C12"),
 }
 
